@@ -26,6 +26,35 @@ class AnalysisError(Exception):
     """The analysis itself is broken (vanished anchor, unparsable source...)."""
 
 
+class _Guarded(dict):
+    """the functions of a module; handing out one that is outside the analysed subset (subset.py) is an ANALYSIS-ERROR"""
+
+    def __init__(self, items, src, prefix="", whole=False):
+        super().__init__(items)
+        self._src = src
+        self._prefix = prefix
+        self._whole = whole      # classes: with everything inside
+
+    def __getitem__(self, q):
+        self._src._check_subset(self._prefix + q, self._whole)
+        return super().__getitem__(q)
+
+    def get(self, q, default=None):
+        if super().__contains__(q):
+            self._src._check_subset(self._prefix + q, self._whole)
+        return super().get(q, default)
+
+    def items(self):
+        for q in self:
+            self._src._check_subset(self._prefix + q, self._whole)
+        return super().items()
+
+    def values(self):
+        for q in self:
+            self._src._check_subset(self._prefix + q, self._whole)
+        return super().values()
+
+
 class Source:
     def __init__(self, rel, text):
         self.rel = rel
@@ -34,10 +63,12 @@ class Source:
         self.low = None
         self.renamed = {}
         self.normalised = {}
+        self.outside_subset = {}
         try:
             if self.is_pyx:
                 self.low = pyxfront.lower(rel, text)
                 self.tree = self.low.tree
+                self._subset_guard()
                 from . import normalize
                 self.normalised = normalize.normalise(rel, self.tree, localnames.table().get(rel, {}).get("__inventory__"))
                 self.renamed = localnames.recover(rel, self.tree, self.low)
@@ -48,6 +79,7 @@ class Source:
                         normalize.finish(self.tree, localnames.table().get(rel, {}).get("__inventory__"))
             else:
                 self.tree = ast.parse(text, filename=rel)
+                self._subset_guard()
                 # undo behaviour-preserving refactorings (new constants, helpers, table loops: normalize.py) ...
                 from . import normalize
                 self.normalised = normalize.normalise(rel, self.tree, localnames.table().get(rel, {}).get("__inventory__"))
@@ -64,14 +96,42 @@ class Source:
         localnames.orient_comparisons(self.tree)
         from . import exprnorm as _en
         _en.register_enums(self.tree)
+        from . import alias as _al
+        _al.register_imports(self.tree)
         self._funcs = None
         self._classes = None
+
+    def _subset_guard(self):
+        """constructs the engine cannot read (subset.py), counted on the text as written and compared with the reference census:
+        module-level excess fails at once, a function's excess when a rule asks for that function"""
+        from . import subset
+        inv = localnames.table().get(self.rel, {}).get("__inventory__") or {}
+        if "census" not in inv:
+            return
+        new = subset.census(self.tree)
+        if self.is_pyx:
+            for c in new.values():
+                c.pop("decorators", None)
+        self.outside_subset = subset.flags(new, inv["census"])
+        if "<module>" in self.outside_subset:
+            raise AnalysisError(f"{self.rel}: the module body is outside the analysed subset of Python: {self.outside_subset['<module>']}")
+
+    def _check_subset(self, qualname, whole=False):
+        if whole:
+            for k_, why in self.outside_subset.items():
+                if k_.startswith(qualname + "."):
+                    raise AnalysisError(f"{self.rel}: {k_} is outside the analysed subset of Python: {why}")
+        parts = qualname.split(".")
+        for i in range(1, len(parts) + 1):
+            why = self.outside_subset.get(".".join(parts[:i]))
+            if why:
+                raise AnalysisError(f"{self.rel}: {'.'.join(parts[:i])} is outside the analysed subset of Python: {why}")
 
     # ---- lookup -------------------------------------------------------
     @property
     def funcs(self):
         if self._funcs is None:
-            self._funcs = dict(pyxfront.iter_funcs(self.tree))
+            self._funcs = _Guarded(pyxfront.iter_funcs(self.tree), self)
         return self._funcs
 
     @property
@@ -90,7 +150,7 @@ class Source:
                         rec(ch, prefix)
 
             rec(self.tree, "")
-            self._classes = d
+            self._classes = _Guarded(d.items(), self, whole=True)
         return self._classes
 
     def func(self, qualname):
@@ -122,11 +182,7 @@ class Source:
 
     def methods(self, clsname):
         c = self.cls(clsname)
-        return {
-            n.name: n
-            for n in c.body
-            if isinstance(n, (ast.FunctionDef, ast.AsyncFunctionDef))
-        }
+        return _Guarded(((n.name, n) for n in c.body if isinstance(n, (ast.FunctionDef, ast.AsyncFunctionDef))), self, clsname + ".")
 
 
 class Finding:
